@@ -445,13 +445,13 @@ def joinPath (a b : Bytes) : Bytes :=
 /-- mod_setenv: handle_uri_clean (plugin slot 1): the per-request context is created once and
     keeps the configuration that matched when it was created -/
 def setenvUriClean (s : ReqLive) : ReqLive :=
-  match s.pluginCtx.getD 1 none with
+  match pctxGet s 1 with
   | some _ => s                                   -- hctx->handled: nothing to do
-  | none => { s with pluginCtx := s.pluginCtx.set 1 (some s.conf.extra) }
+  | none => pctxSet s 1 s.conf.extra
 
 /-- mod_setenv: handle_response_start -/
 def setenvResponseStart (s : ReqLive) : ReqLive :=
-  match s.pluginCtx.getD 1 none with
+  match pctxGet s 1 with
   | none => s
   | some hs => hs.foldl (fun s kv => respInsert s (hid (kv.1.map toLower)) kv.1 kv.2) s
 
@@ -511,45 +511,51 @@ def subrequestStart (site : Site) (s : ReqCore) : ReqCore :=
     else s
   s.onLive noHandler
 
+/-- first part of http_response_prepare(), done once per request (only while physical.path is
+    still unset): configuration, uri_clean hooks, logical -> physical path.
+    `.error` = a hook finished the request -/
+def prepareSetup (site : Site) (s : ReqCore) : Except ReqCore ReqCore :=
+  if s.physPath.isNone then
+    let s := httpResponseConfig site s
+    -- uri_clean hooks in module order: mod_access (a rejection ends the hook chain), mod_setenv
+    if site.denySuffix.any (fun d => endsWith s.uriPath.bytes d) then
+      .error (s.onLive fun l => { l with httpStatus := 403, handlerModule := false })
+    else
+    let s := s.onLive setenvUriClean
+    if s.method = mOPTIONS && s.uriPath.bytes = [42] then .error (s.onLive optionsStar)
+    else if s.method = mCONNECT && (s.handlerModule || !s.h2ConnectExt) then
+      .error (if s.handlerModule then s else s.onLive (errorClose · 405))
+    else
+      -- (physical.doc_root and physical.basedir are set here too; nothing in the model reads them)
+      .ok { s with physRelPath := some s.uriPath.bytes,
+                   physPath := some (joinPath s.conf.docRoot s.uriPath.bytes) }
+  else .ok s
+
+/-- second part of http_response_prepare(): http_response_physical_path_check(), directory
+    redirect, subrequest_start hooks -/
+def prepareServe (site : Site) (s : ReqCore) : ReqCore :=
+  if s.handlerModule then s else
+  match site.lookup s.physPath.bytes with
+  | none =>
+    if s.method = mOPTIONS && btst s.respHtags idAllow then s.onLive fun l => { l with httpStatus := 200 }
+    else s.onLive fun l => { l with httpStatus := 404 }
+  | some node =>
+    if node = .dir && s.uriPath.bytes.getLast? ≠ some slash then
+      -- http_response_redirect_to_directory()
+      let loc := s.uriPath.bytes ++ [slash] ++
+                 (match s.uriQuery with | some q => qmark :: q | none => [])
+      s.onLive fun l =>
+        { respSet l idLocation (ofString "Location") loc with httpStatus := 301, respBodyFinished := true }
+    else subrequestStart site s
+
 /-- http_response_prepare() -/
 def responsePrepare (site : Site) (s : ReqCore) : ReqCore :=
   if s.httpStatus > 200 then
     if !s.respBodyFinished then s.onLive (bodyClear hdrIds · false) else s
   else
-  -- request set-up is done once per request: only while physical.path is still unset
-  let s1? : Except ReqCore ReqCore :=
-    if s.physPath.isNone then
-      let s := httpResponseConfig site s
-      -- uri_clean hooks in module order: mod_access (a rejection ends the hook chain), mod_setenv
-      if site.denySuffix.any (fun d => endsWith s.uriPath.bytes d) then
-        .error (s.onLive fun l => { l with httpStatus := 403, handlerModule := false })
-      else
-      let s := s.onLive setenvUriClean
-      if s.method = mOPTIONS && s.uriPath.bytes = [42] then .error (s.onLive optionsStar)
-      else if s.method = mCONNECT && (s.handlerModule || !s.h2ConnectExt) then
-        .error (if s.handlerModule then s else s.onLive (errorClose · 405))
-      else
-        -- (physical.doc_root and physical.basedir are set here too; nothing in the model reads them)
-        .ok { s with physRelPath := some s.uriPath.bytes,
-                     physPath := some (joinPath s.conf.docRoot s.uriPath.bytes) }
-    else .ok s
-  match s1? with
-  | .error s => s
-  | .ok s =>
-    if s.handlerModule then s else
-    -- http_response_physical_path_check()
-    match site.lookup s.physPath.bytes with
-    | none =>
-      if s.method = mOPTIONS && btst s.respHtags idAllow then s.onLive fun l => { l with httpStatus := 200 }
-      else s.onLive fun l => { l with httpStatus := 404 }
-    | some node =>
-      if node = .dir && s.uriPath.bytes.getLast? ≠ some slash then
-        -- http_response_redirect_to_directory()
-        let loc := s.uriPath.bytes ++ [slash] ++
-                   (match s.uriQuery with | some q => qmark :: q | none => [])
-        s.onLive fun l =>
-          { respSet l idLocation (ofString "Location") loc with httpStatus := 301, respBodyFinished := true }
-      else subrequestStart site s
+    match prepareSetup site s with
+    | .error s => s
+    | .ok s => prepareServe site s
 
 /-- does http_response_static_errdoc() replace the response (status is 4xx/5xx)? -/
 def errdocApplies (s : ReqLive) : Bool :=
@@ -617,11 +623,15 @@ def preWrite (savedMethod : Int) (s : ReqLive) : ReqLive :=
   let s := if s.httpStatus = 0 then { s with httpStatus := 200 } else s
   if s.httpStatus < 400 && s.errorHandlerSavedStatus = 0 then s else hasErrorHandler savedMethod s
 
+/-- state after http_response_prepare(); a handler module left over from an earlier request
+    would be run instead (shown as a 500) -/
+def prepared (site : Site) (s : ReqCore) : ReqCore :=
+  if s.handlerModule then s.onLive fun l => { l with httpStatus := 500 } else responsePrepare site s
+
 /-- http_response_handler() on the core fields, for a request no module takes over
     asynchronously; `savedMethod` = r->error_handler_saved_method -/
 def respondC (site : Site) (savedMethod : Int) (s : ReqCore) : ReqCore :=
-  let a := if s.handlerModule then s.onLive fun l => { l with httpStatus := 500 }   -- (a stale handler would run)
-           else responsePrepare site s
+  let a := prepared site s
   let p := preWrite savedMethod a.toReqLive
   let b : ReqCore := { a with toReqLive := writePrepare p }
   -- http_response_errdoc_init(): buffer_reset(&r->physical.path)
@@ -629,7 +639,7 @@ def respondC (site : Site) (savedMethod : Int) (s : ReqCore) : ReqCore :=
 
 /-- http_response_handler(): `respondC` plus the allocation state of physical.path -/
 def respond (site : Site) (s : ReqSt) : ReqSt :=
-  let a := if s.handlerModule then s.toReqCore else responsePrepare site s.toReqCore
+  let a := prepared site s.toReqCore
   let c := respondC site s.errorHandlerSavedMethod s.toReqCore
   let allocated := s.physPathPtr || a.physPath.isSome
   let reset := a.physPath.isSome && c.physPath.isNone          -- buffer_reset() in the error document path
@@ -687,35 +697,40 @@ deriving Repr, DecidableEq
 
 def Conn.fresh (e : SrvEnv) : Conn := { r := ReqSt.init e }
 
-/-- one request head on an HTTP/1.x connection: h1_recv_headers(), http_response_handler(),
-    h1_send_headers(), connection_handle_response_end_state().  No module of the modelled site
-    reads a request body, so r->reqbody_queue stays empty and a request that announces a body
-    is answered with keep-alive off. -/
+/-- h1_recv_headers() for the next request head on the connection: the limit checks come before
+    request_reset_ex(), which is only done from the second request on -/
+def h1Parse (c : Conn) (head : Bytes) : IntoRes ReqSt :=
+  let r0 := c.r.onLive fun l => { l with loopsPerRequest := 0 }   -- connection_handle_request_start_state()
+  match recvHead r0.conf.maxRequestFieldSize head with
+  | .tooLarge => .done (r0.onLive fun l => { l with httpStatus := 431, keepAlive := 0 })
+  | .head _ _ => parseIntoH1 (if c.requestCount + 1 > 1 then requestResetEx r0 else r0) head
+  | .incomplete => .incomplete
+  | .blank _ => .blank
+
+/-- http_response_handler(), h1_send_headers(), connection_handle_response_end_state() for the
+    `count`-th request of the connection.  No module of the modelled site reads a request body,
+    so r->reqbody_queue stays empty and a request that announces a body is answered with
+    keep-alive off. -/
+def h1Finish (site : Site) (e : SrvEnv) (count : Nat) (r1 : ReqSt) : Conn × Option Out :=
+  let r2 := (respond site r1).onLive (h1SendHeaders count)
+  let out := h1Output r2.toReqLive
+  let incomplete := r2.reqbodyLength ≠ (r2.reqbodyQueue.bytesIn : Int)
+  let ka := r2.keepAlive > 0 && !incomplete
+  if ka then
+    ({ r := requestReset hdrIds e r2, requestCount := count, isOpen := true }, some { out with keepAlive := true })
+  else
+    -- connection_handle_shutdown() -> connection_reset(); connection_close() -> request_reset_ex()
+    ({ r := { requestResetEx (requestReset hdrIds e r2) with state := 0 }, requestCount := 0, isOpen := false },
+     some { out with keepAlive := false })
+
+/-- one request head on an HTTP/1.x connection -/
 def h1Msg (site : Site) (e : SrvEnv) (c : Conn) (head : Bytes) : Conn × Option Out :=
   if !c.isOpen then (c, none) else
-  let count := c.requestCount + 1                       -- connection_handle_request_start_state()
-  let r0 := c.r.onLive fun l => { l with loopsPerRequest := 0 }
-  -- h1_recv_headers(): the limit checks come before request_reset_ex()
-  let parsed : IntoRes ReqSt :=
-    match recvHead r0.conf.maxRequestFieldSize head with
-    | .tooLarge => .done (r0.onLive fun l => { l with httpStatus := 431, keepAlive := 0 })
-    | .head _ _ => parseIntoH1 (if count > 1 then requestResetEx r0 else r0) head
-    | .incomplete => .incomplete
-    | .blank _ => .blank
-  match parsed with
-  | .done r1 =>
-    let r2 := (respond site r1).onLive (h1SendHeaders count)
-    let out := h1Output r2.toReqLive
-    -- connection_handle_response_end_state()
-    let incomplete := r2.reqbodyLength ≠ (r2.reqbodyQueue.bytesIn : Int)
-    let ka := r2.keepAlive > 0 && !incomplete
-    if ka then
-      ({ r := requestReset hdrIds e r2, requestCount := count, isOpen := true }, some { out with keepAlive := true })
-    else
-      -- connection_handle_shutdown() -> connection_reset(); connection_close() -> request_reset_ex()
-      ({ r := { requestResetEx (requestReset hdrIds e r2) with state := 0 }, requestCount := 0, isOpen := false },
-       some { out with keepAlive := false })
-  | _ => ({ c with isOpen := false }, none)             -- (incomplete head: the client went away)
+  match h1Parse c head with
+  | .done r1 => h1Finish site e (c.requestCount + 1) r1
+  | _ =>
+    -- incomplete head and the client went away: connection_reset(), connection_close()
+    ({ r := { requestResetEx (requestReset hdrIds e c.r) with state := 0 }, requestCount := 0, isOpen := false }, none)
 
 /-- a closed connection object is taken from the pool again by connection_accepted() -/
 def Conn.reaccept (c : Conn) : Conn :=
